@@ -264,8 +264,13 @@ class Backend(object):
             if self.hook:
                 self.hook(self, lp, rec)
             return lp.status
-        # writeMPS() of the real adapter refuses duplicated variable names
-        lp.checkDuplicateVars()
+        # the real adapter writes an MPS file that CBC rejects when two columns
+        # carry the same name (observed: PulpSolverError "Error while executing")
+        names = [v.name for v in lp.variables()]
+        if len(set(names)) != len(names):
+            from pulp import PulpSolverError
+            raise PulpSolverError('Pulp: Error while executing (duplicated variable names %r)'
+                                  % sorted(n for n in set(names) if names.count(n) > 1))
         vs, nproj, res, sign = solve_all(lp)
         rec.pairs = [_pair(v.name) for v in vs[:nproj]]
         rec.nF = len(res)
